@@ -790,18 +790,19 @@ namespace
                     const auto& a_elem = a_arr[idx];
                     const auto& b_elem = b_arr[idx];
 
-                    if (a.is<t_string>())
+                    if (a_elem.is<t_string>())
                     {
                         if (a_elem.data<d_string, std::string>() < b_elem.data<d_string, std::string>()) return sort_flag;
                         if (a_elem.data<d_string, std::string>() > b_elem.data<d_string, std::string>()) return !sort_flag;
                     }
-                    else if (a.is<t_scalar>())
+                    else if (a_elem.is<t_scalar>())
                     {
                         if (a_elem.data<d_scalar, float>() < b_elem.data<d_scalar, float>()) return sort_flag;
                         if (a_elem.data<d_scalar, float>() > b_elem.data<d_scalar, float>()) return !sort_flag;
                     }
                 }
-                return !sort_flag;
+                // equal: neither comes first (std::sort needs a strict weak ordering)
+                return false;
             }
             else if (a.is<t_string>())
             {
@@ -815,7 +816,7 @@ namespace
                 if (a.data<d_scalar, float>() > b.data<d_scalar, float>()) return !sort_flag;
                 return false;
             }
-            return !sort_flag;
+            return false;
             });
 
         return {};
